@@ -125,7 +125,7 @@ def run_point(run, drv, rng, pt, stream="lattice"):
     if out_td is not None and not out_td.is_locked:
         before_out = {p: out_td.get(p) for p in L.leaf_paths(out_struct)}
     try:
-        with time_limit(30):
+        with time_limit(240):
             if front == "apply":
                 res = self_td.apply(rec, *others, **kw)
             elif front == "named_apply":
@@ -137,6 +137,8 @@ def run_point(run, drv, rng, pt, stream="lattice"):
                 res = self_td._fast_apply(rec, *others, **fkw)
         impl = ["none"] if res is None else ["ok", L.norm(L.canon(res, rec))]
         err = None
+    except TimeoutError as e:  # a slow box is an infrastructure problem, never a violation
+        raise Infra(f"implementation call timed out: {e}")
     except Exception as e:  # noqa: BLE001
         res, err = None, e
         impl = ["err", err_class(e)]
